@@ -485,7 +485,75 @@ def judge_shadow(job):
     return out
 
 
+# ---------------------------------------------------------------------------
+# isar: a file that includes another through xi:include
+# ---------------------------------------------------------------------------
+
+ISAR_INC = ('<xml><constant name="IK" value="2"/><enum name="IE"><enum-member name="IE_A" value="3"/><enum-member name="IE_B" value="4"/>'
+            '</enum><struct name="IF"><member name="p" type="u8"/><member name="q" type="u16"/></struct></xml>')
+ISAR_USERS = {
+    'constant-as-size': '<struct name="X"><member name="a" type="u8"><dimension size="IK"/></member></struct>',
+    'struct-and-enum-as-types': '<struct name="X"><member name="f" type="IF"/><member name="e" type="IE"/></struct>',
+    'enumerator-as-size': '<struct name="X"><member name="a" type="u16"><dimension size="IE_A"/></member></struct>',
+    'enumerator-as-limit': '<struct name="X"><member name="a" type="u8"><dimension isVariableSize="true" size="IE_B"/></member></struct>',
+    'enumerator-as-discriminator': '<union name="X"><member name="a" type="u8" discriminatorValue="IE_A"/>'
+                                   '<member name="b" type="u16" discriminatorValue="IE_B"/></union>',
+}
+
+
+def judge_isar_include(job):
+    T.setup_repo()
+    out = {'viol': [], 'runs': 0}
+    try:
+        for label, user in sorted(ISAR_USERS.items()):
+            d = T.fresh_dir('c16i')
+            try:
+                with open(os.path.join(d, 'inc.xml'), 'w') as f:
+                    f.write(ISAR_INC)
+                with open(os.path.join(d, 'main.xml'), 'w') as f:
+                    f.write('<xml xmlns:xi="http://www.w3.org/2001/XInclude"><xi:include href="inc.xml"/>%s</xml>' % user)
+                multi = T.run_prophyc(['--isar', '--python_out', d, os.path.join(d, 'inc.xml'), os.path.join(d, 'main.xml')])
+                single = T.compile_text(ISAR_INC.replace('</xml>', user + '</xml>'), outs=('python',), mode='isar', name='single')
+                out['runs'] += 2
+                art = {'isar_include': label, 'files': {'inc.xml': ISAR_INC, 'main.xml': user}, 'arrangement': 'same-dir', 'detail': ''}
+                if not single.ok:
+                    out['harness_error'] = 'single-file isar build fails: %s' % single.exc
+                    return out
+                if not multi.ok:
+                    out['viol'].append(('isar-include|build-fails|%s|%s' % (multi.exc_type, label), dict(art, detail=str(multi.exc)[:300])))
+                    continue
+                smod = T.import_generated(single.files['single.py'])
+                try:
+                    mod = T.import_generated(os.path.join(d, 'main.py'))
+                except Exception as e:      # noqa
+                    out['viol'].append(('isar-include|module-import-fails|%s|%s' % (type(e).__name__, label),
+                                        dict(art, detail='%s: %s' % (type(e).__name__, str(e)[:200]))))
+                    continue
+                a, b = mod['X']() if isinstance(mod, dict) else getattr(mod, 'X')(), \
+                    smod['X']() if isinstance(smod, dict) else getattr(smod, 'X')()
+                if (a._SIZE, a._ALIGNMENT) != (b._SIZE, b._ALIGNMENT) or a.encode('<') != b.encode('<'):
+                    out['viol'].append(('isar-include|layout-differs|%s' % label, dict(art, detail='multi %s single %s' % (
+                        a.encode('<').hex(), b.encode('<').hex()))))
+                shutil.rmtree(single.outdir, ignore_errors=True)
+            finally:
+                shutil.rmtree(d, ignore_errors=True)
+    except Exception:       # noqa
+        out['harness_error'] = traceback.format_exc()
+    return out
+
+
 def run(ctx):
+    for res in ctx.pmap(judge_isar_include, [None]):
+        if 'harness_error' in res:
+            raise HarnessError(res['harness_error'])
+        ctx.cov['transitions'] += res['runs']
+        ctx.cov['evaluations'] += res['runs']
+        ctx.cov['traces_validated_against_impl'] += res['runs']
+        ctx.cov['isar_include_runs'] = res['runs']
+        for key, art in res['viol']:
+            ctx.violation_counts[key] = ctx.violation_counts.get(key, 0) + 1
+            if len(ctx.violations.setdefault(key, [])) < 3:
+                ctx.violations[key].append(art)
     names = sorted(bases(ctx.tier))
     for res in ctx.pmap(judge, [(n, ctx.tier) for n in names]):
         if 'harness_error' in res:
@@ -528,6 +596,12 @@ def run(ctx):
 
 def replay(art):
     T.setup_repo()
+    if art.get('isar_include'):
+        out = judge_isar_include(None)
+        hits = [a for k, a in out['viol'] if a['isar_include'] == art['isar_include']]
+        if hits:
+            return 'isar xi:include, %s: %s' % (art['isar_include'], hits[0]['detail'])
+        return None
     if art.get('shadow'):
         out = judge_shadow((tuple(art['shadow']), 'quick'))
         if out['viol']:
